@@ -36,6 +36,10 @@ def cases(tier):
         for f in FORMULAS:
             if "|" in f:
                 out.append((f, "str", ["unseen", "seen", "unseen"]))
+        from vf.props import c04
+
+        for i, f in enumerate(c04.family_formulas(2)):
+            out.append((f, ("str", "cat", "ord")[i % 3], [[], ["seen"], ["seen", "seen"]][i % 3]))
     return out
 
 
